@@ -399,16 +399,14 @@ class Evaluator:
         if k in self._d:
             return self._d[k]
         if is_composite(op):
-            depth1, leaves, _ = level_nodes(op)
-            if not depth1:
+            # a block lasts from the earliest start to the latest end over ALL operations it contains
+            # (not only first-level starts / relation-leaf ends)
+            allnodes = level_nodes(op)[2]
+            if not allnodes:
                 v = 0.0
             else:
-                rel = min(self.start(n.operation) for n in depth1)
-                v = 0.0
-                for n in leaves:
-                    delta = self.end(n.operation) - rel
-                    if delta > v:
-                        v = delta
+                first = min(self.start(n.operation) for n in allnodes)
+                v = max(0.0, max(self.end(n.operation) for n in allnodes) - first)
         else:
             s = op.duration_strategy
             n = type(s).__name__
